@@ -47,7 +47,7 @@ ASSUMPTIONS = ['two threads never import the same module (import-system module l
                'torn or bit-flipped pyc contents and same-mtime-same-size edits are not injected (CPython itself does not survive them)',
                'concurrency between *processes* on one cache directory is not simulated']
 PROBES = ['reconf_between_runs', 'edits', 'crashes', 'threaded_runs', 'preempted_runs', 'cache_hits', 'hooked_and_unhooked_concurrently',
-          'pyc_files_checked']
+          'pyc_files_checked', 'scoped_runs', 'reexec_after_hook_off']
 
 PKG = 'c16pkg'
 
@@ -179,6 +179,14 @@ def generate(rng, run, tier):
                     'import_order': rng.sample(range(nmods), nmods)}
         if rng.random() < 0.12:
             run_spec['crash_at'] = rng.randint(5, 1500)
+        if hook != 'off' and threads is None and rng.random() < 0.3:
+            # the hook is switched on and off again *inside* the run: 'with beartyping(conf)' around the first k imports,
+            # the others imported after the block; some modules of the block re-executed afterwards through the spec
+            # (and loader object) they were first loaded with - what LazyLoader, runpy-style runners and
+            # 'module_from_spec + exec_module' recipes do
+            k = rng.randint(1, nmods)
+            run_spec['scoped'] = {'k': k, 'reexec': sorted(rng.sample(range(nmods), rng.randint(0, min(2, nmods)))),
+                                  'drop_cache': rng.random() < 0.7}
         runs.append(run_spec)
     avoid_race = False          # (was an avoid switch for C16-cache-from-source-race, repaired since)
     if avoid_race:
@@ -293,6 +301,9 @@ def interpreter_run(root, mods, rs, traced=True):
     try:
         with warnings.catch_warnings():
             warnings.simplefilter('ignore')
+            scoped = rs.get('scoped') if rs['hook'] != 'off' else None
+            if scoped:
+                return _scoped_run(root, mods, rs, scoped, obs)
             if rs['hook'] != 'off':
                 claw.beartype_package(PKG + '.h', conf=ops.build_conf(CONFS[rs['hook']]))
             # packages first, sequentially (module locks of shared parents stay out of the simulation)
@@ -354,9 +365,54 @@ def interpreter_run(root, mods, rs, traced=True):
         sys.path[:] = old_path
         sys.dont_write_bytecode = old_dwb
         _evict()
-    obs['steps'] = steps
-    obs['digest'] = digest
-    obs['preempt'] = preempt
+    if 'steps' not in obs:
+        obs['steps'] = steps
+        obs['digest'] = digest
+        obs['preempt'] = preempt
+    return obs
+
+
+def _scoped_run(root, mods, rs, scoped, obs):
+    """Hook on for the first k imports only (with beartyping(...)); afterwards unhooked imports and re-executions."""
+    import importlib.util
+    from beartype import claw
+    loaded = {}
+
+    def imp(i):
+        m = mods[i]
+        full = '%s.%s.%s' % (PKG, m['sub'], m['name'])
+        try:
+            loaded[m['name']] = importlib.import_module(full)
+        except Exception as e:      # noqa
+            obs['mods'][m['name']] = {'import_error': type(e).__name__ + ':' + str(e)[:80]}
+    order = [i for i in (rs.get('import_order') or range(len(mods))) if i < len(mods)]
+    k = scoped['k']
+    with claw.beartyping(conf=ops.build_conf(CONFS[rs['hook']])):
+        importlib.import_module(PKG + '.h')
+        importlib.import_module(PKG + '.u')
+        for i in order[:k]:
+            imp(i)
+    for i in order[k:]:
+        imp(i)
+    for i in scoped.get('reexec') or []:
+        if i in order[:k] and mods[i]['name'] in loaded:
+            name = mods[i]['name']
+            spec = loaded[name].__spec__
+            if scoped.get('drop_cache'):
+                # the unmarked cache file may legitimately not exist yet; when it does, drop it so that the loader compiles
+                try:
+                    os.unlink(importlib.util.cache_from_source(spec.origin))
+                except OSError:
+                    pass
+            try:
+                m2 = importlib.util.module_from_spec(spec)
+                spec.loader.exec_module(m2)
+                loaded[name + ':reexec'] = m2
+            except Exception as e:      # noqa
+                obs['mods'][name + ':reexec'] = {'import_error': type(e).__name__ + ':' + str(e)[:80]}
+    for name, mod in loaded.items():
+        obs['mods'][name] = fingerprint(mod)
+    obs['steps'] = obs['digest'] = obs['preempt'] = 0
     return obs
 
 
@@ -436,6 +492,9 @@ def _execute(case, runner):
                     probes['hooked_and_unhooked_concurrently'] += 1
             if obs.get('crashed'):
                 probes['crashes'] += 1
+            if rs.get('scoped') and rs['hook'] != 'off':
+                probes['scoped_runs'] += 1
+                probes['reexec_after_hook_off'] += sum(1 for n in obs.get('mods', {}) if n.endswith(':reexec'))
             if pyc_before:
                 probes['cache_hits'] += 1
             rec_switches = obs.get('switches')
@@ -478,7 +537,7 @@ def _execute(case, runner):
     finally:
         shutil.rmtree(scratch, ignore_errors=True)
     nontrivial = bool(probes['reconf_between_runs'] or probes['edits'] or probes['crashes'] or probes['preempted_runs'])
-    out = {'digest': kernel.stable_hash([case['mods'], [(r['hook'], r['edits'], r['threads'], r['crash_at']) for r in case['runs']], digests]),
+    out = {'digest': kernel.stable_hash([case['mods'], [(r['hook'], r['edits'], r['threads'], r['crash_at'], r.get('scoped')) for r in case['runs']], digests]),
            'nontrivial': nontrivial, 'probes': probes, 'steps': total_steps, 'sim_time': float(sim_span),
            'stats': {'reconf': probes['reconf_between_runs'], 'edit': probes['edits'], 'crash': probes['crashes'],
                      'preempted_runs': probes['preempted_runs']},
@@ -530,7 +589,7 @@ def shrink(case, violation):
             c['runs'] = cand
             yield c
     for i, r in enumerate(runs):
-        for key, val in (('threads', None), ('crash_at', None), ('edits', [])):
+        for key, val in (('threads', None), ('crash_at', None), ('edits', []), ('scoped', None)):
             if r.get(key):
                 r2 = dict(r)
                 r2[key] = val
@@ -562,4 +621,4 @@ SIGNATURES = {'marker_ignores_configuration': _sig_marker_conf, 'cache_from_sour
 
 def describe(case):
     return {'mods': [(m['name'], m['sub'], m['ptype']) for m in case['mods']],
-            'runs': [{k: v for k, v in r.items() if k in ('hook', 'edits', 'threads', 'crash_at')} for r in case['runs']]}
+            'runs': [{k: v for k, v in r.items() if k in ('hook', 'edits', 'threads', 'crash_at', 'scoped')} for r in case['runs']]}
